@@ -192,7 +192,7 @@ func c05Gen(r *Rand, tier string) []string {
 			}
 			steps = append(steps, st)
 		}
-		out = append(out, fmt.Sprintf("agg %s %d %d %d %s %d", HexList([][]byte{data}), Pick(r, []int{1, 2, 4, 8}),
+		out = append(out, fmt.Sprintf("agg %s %d %d %d %s %d", HexList([][]byte{data}), Pick(r, []int{1, 2, 4, 8, 0}), // 0 = the default of Config.getWorkerCount (2)
 			Pick(r, []int{1, 2, 7, 1000}), Pick(r, []int{1, 2, 4}), strings.Join(steps, ","), Pick(r, []int{0, 1, 5})))
 	}
 	// slow renders with the input ending while the periodic render is still running: the final render
